@@ -13,7 +13,7 @@ for S in $LIST; do
   EXTRA=""; [ -f "$OUT/also_run" ] && EXTRA=$(cat "$OUT/also_run")
   verd=""
   for P in $ID $EXTRA; do
-    DM_REPO="$WT" DMV_WORK=${SEED_WORK:-/verif/.work-seed} /verif/check "$P" > "$OUT/check-$P.out" 2>&1; rc=$?
+    DM_REPO="$WT" DMV_EVIDENCE_DIR=/tmp/dmv-scratch-evidence DMV_WORK=${SEED_WORK:-/verif/.work-seed} /verif/check "$P" > "$OUT/check-$P.out" 2>&1; rc=$?
     verd="$verd $P=exit$rc"; rm -rf /verif/replays/$P
   done
   git -C /repo worktree remove --force "$WT"
